@@ -142,8 +142,9 @@ pub fn run(seed: u64, thorough: bool, out: &mut Out) {
             }
         }
     }
-    if thorough {
-        // exhaustive: all programs of <= 3 atoms over 2 variables (1 query, 1 hidden), 2 constants, depth <= 1, all orders
+    {
+        // SMALL SCOPE, EXHAUSTIVE (both tiers): all ordered pairs of the 30 atoms over 2 variables (1 query, 1 hidden), 2 constants,
+        // depth <= 1 — with the brute-force solution set as oracle; triples of the same alphabet sampled (more in thorough)
         let ts = vec![T::Var(0), T::Var(1), T::Num(1), T::Num(2), T::list(vec![T::Var(1)]), T::cons(T::Var(0), T::Var(1))];
         let mut atoms = vec![];
         for a in &ts {
@@ -157,16 +158,17 @@ pub fn run(seed: u64, thorough: bool, out: &mut Out) {
         for a in &atoms {
             for b in &atoms {
                 let p = Prog { nvars: 2, nq: 1, take: 0, body: vec![a.clone(), b.clone()], raw: false };
-                record(&p, None, out, "exhaustive_2atoms");
+                let sols = solutions(&p);
+                record(&p, Some(&sols), out, "exhaustive_2atoms");
             }
         }
         let mut r = Rng::new(seed, 202, 0);
-        for _ in 0..20000 {
+        for _ in 0..(if thorough { 20000 } else { 1500 }) {
             let body: Vec<PG> = (0..3).map(|_| r.pick(&atoms).clone()).collect();
             let p = Prog { nvars: 2, nq: 1, take: 0, body, raw: false };
             record(&p, None, out, "random_3atoms_small_alphabet");
         }
         out.exhaustive = true;
-        out.notes.push("thorough: all ordered pairs of the 30 atoms over {x0,x1,1,2,[x1],[x0|x1]} (1 query + 1 hidden variable)".into());
+        out.notes.push("all ordered pairs of the 30 atoms over {x0,x1,1,2,[x1],[x0|x1]} (1 query + 1 hidden variable)".into());
     }
 }
